@@ -53,6 +53,7 @@ def units(tier, seed):
     for i in range(0, len(en), 8):
         us.append({'kind': 'enum', 'pairs': en[i:i + 8], 'tier': tier, 'seed': seed})
     us.append({'kind': 'consumer', 'tier': tier, 'seed': seed})
+    us.append({'kind': 'consumer_programs', 'tier': tier, 'seed': seed})
     return us
 
 
@@ -216,10 +217,29 @@ def run_consumer(u, out):
                 out['fails'].append({'sig': 'C15|consumer|value|x %s' % kn, 'case': case, 'detail': {'got': np.asarray(got).tolist(), 'expected': exp.tolist()}})
 
 
+def run_consumer_programs(u, out):
+    """the "Hence" part on PROGRAMS: vectorised integer polynomial programs (constants of rank up to 3, products of
+    polynomial operands, in-place updates; amc/props/c09.py) seeded with init_tensor(d, x) and read with extract_tensor
+    against exact partial derivatives, N = 2, 3 and d = 2, 3"""
+    from . import c09
+    for N in (2, 3):
+        for drv in ('tensor2', 'tensor3'):
+            c = c09.Ctx({'kind': 'vecpoly', 'N': N, 'driver': drv, 'tier': 'quick', 'seed': u.get('seed', 0)})
+            c09.run_vecpoly(c, N, drv, 'quick')
+            out['evals'] += c.out['evals']
+            out['nontrivial'] += c.out['nontrivial']
+            for f in c.out['fails']:
+                out['fails'].append({'sig': f['sig'].replace('C09|', 'C15|consumer program|'), 'case': {'kind': 'consumer_programs', 'N': N, 'driver': drv},
+                                     'detail': f['detail']})
+
+
 def run_unit(u):
     out = {'evals': 0, 'nontrivial': 0, 'fails': [], 'samples': [], 'maxima': {}, 'counters': {}}
     if u['kind'] == 'consumer':
         run_consumer(u, out)
+        return out
+    if u['kind'] == 'consumer_programs':
+        run_consumer_programs(u, out)
         return out
     if u['kind'] == 'enum':
         for N, d in u['pairs']:
